@@ -16,7 +16,7 @@ Definition rop_eqb (a b : rop) : bool :=
   match a, b with
   | RoStart, RoStart | RoJoin, RoJoin | RoAcquire, RoAcquire | RoTerminate, RoTerminate
   | RoSet, RoSet | RoRelease, RoRelease | RoFn, RoFn | RoExit, RoExit | RoExpire, RoExpire
-  | RoOther, RoOther => true
+  | RoOther, RoOther | RoKill, RoKill | RoDie, RoDie | RoExpire2, RoExpire2 => true
   | RoIsAlive x, RoIsAlive y => Bool.eqb x y
   | RoIsSet x, RoIsSet y => Bool.eqb x y
   | RoPut x, RoPut y => rk_eqb x y
@@ -50,14 +50,14 @@ Definition ok_one (q : list rk) : bool := match q with [_] => true | _ => false 
 Definition ok_after (returned : list Z) (alive : bool) (cores : bitmap) : bool :=
   alive && eqb_list Z.eqb returned [1; 2] && forallb negb cores.
 
-Definition c20_race_row (p : pay) (timed : bool) (s : list choice)
+Definition c20_race_row (p : pay) (timed : bool) (sg : sigr) (s : list choice)
   (otr : list (party * rop)) (oq : list rk) (ofin : bool)
-  (oret : list Z) (oalive : bool) (ocores : bitmap) : list bool :=
-  let '(c, tr) := race p timed s in
+  (oret : list Z) (oalive : bool) (ocores : bitmap) (orwa : bool) : list bool :=
+  let '(c, tr) := race p timed sg s in
   let '(st, evs, alive) := watcher wst2 (feed (c_q c)) in
   [ eqb_list (eqb_prod party_eqb rop_eqb) tr otr && eqb_list rk_eqb (c_q c) oq
     && Bool.eqb (finished c) ofin && eqb_list Z.eqb (returned_uids evs) oret
-    && Bool.eqb alive oalive && eqb_list Bool.eqb (w_cb st) ocores ]
+    && Bool.eqb alive oalive && eqb_list Bool.eqb (w_cb st) ocores && Bool.eqb (c_bad c) orwa ]
   ++ pad 2 ++
   [ forallb negb ocores ]                                  (* quiescent_free *)
   ++
@@ -65,3 +65,11 @@ Definition c20_race_row (p : pay) (timed : bool) (s : list choice)
   ++ pad 3 ++
   [ forallb (truthful_rk p otr) oq ]                       (* truthful *)
   ++ pad 3.
+
+(* reported_only_after_process_gone: the dispatcher queued no result while the
+   request's task process still existed (measured when the result is queued);
+   no_two_live_processes_on_a_core: no later request was started on a core
+   (the raced request held core 0) given back while that process still existed *)
+Definition c20_race_extra (orwa : bool) (third : option (list Z)) : list bool :=
+  [ negb orwa;
+    negb (orwa && match third with Some cs => memZ 0 cs | None => false end) ].
